@@ -40,6 +40,8 @@ Qed.
 Definition str_eq_dec (a b : str) : {a = b} + {a <> b}.
 Proof. apply (list_eq_dec N.eq_dec). Defined.
 
+Definition nonempty (s : str) : bool := match s with [] => false | _ => true end.
+
 (* strings.HasPrefix s p *)
 Fixpoint has_prefix (s p : str) {struct p} : bool :=
   match p, s with
